@@ -346,7 +346,12 @@ def rule_d(ctx, out):
 def rule_e(ctx, out):
     """No statically certain hang: a `while` loop whose condition nothing in its body can change (and without break/return/raise)."""
     from ..core.idioms import stuck_while_loops, emptiness_loops_without_variant
-    reach = reachable_precise(ctx)
+    reach = dict(reachable_precise(ctx))
+    # methods reached only through dynamically typed receivers (the greedy's own class, the encoders) are not in the precise call graph:
+    # every function of the pipeline packages is scanned
+    for q_, f_ in ctx.p.functions.items():
+        if f_.module.name == "gasol_asm" or f_.module.name.startswith(("greedy.", "sfs_generator.", "smt_encoding.", "solution_generation.", "verification.")):
+            reach.setdefault(q_, f_)
     n = 0
     for q, f in sorted(reach.items()):
         loops = [x for x in own_nodes(f.node) if isinstance(x, ast.While)]
@@ -362,6 +367,14 @@ def rule_e(ctx, out):
             stuck.append(loop)
             out.bad(f"loop-has-no-variant:{f.name}:{x}", f"`while {short(loop.test, 40)}` in {f.name}: on some path through the body the list `{x}` is never "
                     f"shortened (only re-bound to a same-length transformation, and no callee consumes it): the loop cannot reach its exit", where(f, loop))
+        from ..core.idioms import iterations_without_progress
+        for loop, wit in iterations_without_progress(ctx, f):
+            if loop in stuck:
+                continue
+            stuck.append(loop)
+            out.bad(f"iteration-without-progress:{f.name}:{short(loop.test, 40)}", f"`while {short(loop.test, 40)}` in {f.name}: a path through the body (line "
+                    f"{getattr(wit, 'lineno', '?')}) comes back to the test without writing anything the test or the branch conditions of the body read — the "
+                    f"same path is taken again, for ever; the greedy search has no time limit and nothing is raised, so the whole run hangs on that block", where(f, wit))
         for _ in range(len(loops) - len(stuck)):
             out.ok()
     out.samples.append({"while_loops_checked": n})
